@@ -975,4 +975,107 @@ example :
     getPipelinePathA exFsRel ["e"] (.rel ["y"]) (some (.rel ["sub"])) = .ok ["w", "y.yaml"] := by
   refine ⟨rfl, rfl, rfl⟩
 
+
+/-! ## The configured pipelines sub-directory: step 4 follows the effective configuration -/
+
+/-- the layers above are the default instance -/
+theorem getPipelinePathS_default (fs : Fs) (name : Name) (parent : Option Path) :
+    getPipelinePathS fs ["pipelines"] name parent = getPipelinePath fs name parent := rfl
+
+/-- **Resolution order with a configured sub-directory** (every file system, every `sub`): the first
+    existing candidate among parent (if it counts), cwd, cwd/`sub`, built-ins; when none exists the error
+    lists exactly those places - `cwd/sub`, not `cwd/pipelines`. -/
+theorem resolve_first_existing_S (fs : Fs) (sub parts : List String) (parent : Option Path) :
+    getPipelinePathS fs sub (.rel parts) parent =
+      match ((searchDirsS fs sub parent).map (· ++ fileParts parts)).find? fs.isFile with
+      | some p => .ok p
+      | none => .error ("/".intercalate (fileParts parts) ++ " not found in any of the following:\n" ++
+                        "\n".intercalate ((searchDirsS fs sub parent).map pathStr)) := by
+  simp only [getPipelinePathS, findPipeline_eq_find]
+  cases List.find? fs.isFile (List.map (fun x => x ++ fileParts parts) (searchDirsS fs sub parent)) <;> rfl
+
+theorem searchDirsS_root (fs : Fs) (sub : List String) :
+    searchDirsS fs sub none = [fs.cwd, fs.cwd ++ sub, fs.builtin] := rfl
+
+/-- the value of `config.pipelines_subdir` after a run of configuration changes -/
+def lastConfig (c : List String) : List SubOp → List String
+  | [] => c
+  | .setConfig s :: rest => lastConfig s rest
+  | _ :: rest => lastConfig c rest
+
+def onlyConfig : List SubOp → Bool
+  | [] => true
+  | .setConfig _ :: rest => onlyConfig rest
+  | _ => false
+
+/-- **Look-up time**: as long as `pypyr.loaders.file` has not been imported (`frozen = none`: nothing but
+    configuration happened in the process so far - `config.init()`, assignments), the first pipeline load
+    uses the sub-directory of the configuration in force AT THAT LOAD, whatever the history of settings. -/
+theorem first_lookup_uses_effective_config (fs : Fs) (pre rest : List SubOp) (p : SubProc) (n : Name)
+    (hpre : onlyConfig pre = true) (hf : p.frozen = none) :
+    (runSub fs p (pre ++ .lookup n :: rest)).head? =
+      some (getPipelinePathS fs (lastConfig p.configSubdir pre) n none) := by
+  induction pre generalizing p with
+  | nil =>
+    simp [runSub, SubProc.sub, SubProc.imported, hf, lastConfig]
+  | cons o os ih =>
+    cases o with
+    | setConfig s =>
+      simp only [List.cons_append, runSub, lastConfig]
+      exact ih { p with configSubdir := s } (by simpa [onlyConfig] using hpre) hf
+    | importLoader => simp [onlyConfig] at hpre
+    | lookup _ => simp [onlyConfig] at hpre
+    | lookupChild _ => simp [onlyConfig] at hpre
+
+/-- what the look-ups of a process yield when the constant is fixed to `s` -/
+def lookupsWith (fs : Fs) (s : List String) : Option Path → List SubOp → List (Except String Path)
+  | _, [] => []
+  | l, .setConfig _ :: rest => lookupsWith fs s l rest
+  | l, .importLoader :: rest => lookupsWith fs s l rest
+  | l, .lookup n :: rest =>
+    let r := getPipelinePathS fs s n none
+    r :: lookupsWith fs s (match r with | .ok f => some f | .error _ => l) rest
+  | l, .lookupChild n :: rest =>
+    let r := getPipelinePathS fs s n (l.map dirOf)
+    r :: lookupsWith fs s (match r with | .ok f => some f | .error _ => l) rest
+
+/-- **… and where the code reads it**: the module constant is fixed at import. Once
+    `pypyr.loaders.file` is imported with the value `s`, every later look-up of the process uses `s`,
+    whatever `config.pipelines_subdir` becomes afterwards. -/
+theorem frozen_at_import (fs : Fs) (ops : List SubOp) (c s : List String) (l : Option Path) :
+    runSub fs { configSubdir := c, frozen := some s, last := l } ops = lookupsWith fs s l ops := by
+  induction ops generalizing c l with
+  | nil => rfl
+  | cons o os ih =>
+    cases o with
+    | setConfig s' => simp only [runSub, lookupsWith]; exact ih s' l
+    | importLoader => simp only [runSub, lookupsWith, SubProc.imported]; exact ih c l
+    | lookup n =>
+      simp only [runSub, lookupsWith, SubProc.sub, SubProc.imported, Option.getD_some]
+      congr 1
+      exact ih c _
+    | lookupChild n =>
+      simp only [runSub, lookupsWith, SubProc.sub, SubProc.imported, Option.getD_some]
+      congr 1
+      exact ih c _
+
+/-- the command line and the documented API order (import, `config.init()`, run): with
+    `pipelines_subdir: pipes` configured, a pipeline only in `cwd/pipes` is found, a same-named file in
+    `cwd/pipelines` is not in the sequence; had the loader been imported BEFORE the configuration was
+    read, it would be the other way round (the hypothesis `frozen = none` is needed). -/
+def exSubFs : Fs :=
+  { cwd := ["w"], builtin := ["B"],
+    isFile := fun p => p == ["w", "pipes", "hello.yaml"] || p == ["w", "pipelines", "hello.yaml"] || p == ["w", "pipes", "only.yaml"],
+    dirExists := fun _ => true }
+
+theorem lazy_vs_eager_import_witness :
+    runSub exSubFs {} [.setConfig ["pipes"], .lookup (.rel ["hello"]), .lookup (.rel ["only"])] =
+      [.ok ["w", "pipes", "hello.yaml"], .ok ["w", "pipes", "only.yaml"]] ∧
+    runSub exSubFs {} [.importLoader, .setConfig ["pipes"], .lookup (.rel ["hello"]), .lookup (.rel ["only"])] =
+      [.ok ["w", "pipelines", "hello.yaml"],
+       .error "only.yaml not found in any of the following:\n/w\n/w/pipelines\n/B"] ∧
+    runSub exSubFs {} [.setConfig ["pipes"], .lookup (.rel ["nope"])] =
+      [.error "nope.yaml not found in any of the following:\n/w\n/w/pipes\n/B"] := by
+  refine ⟨?_, ?_, ?_⟩ <;> rfl
+
 end Pypyr.C19
